@@ -12,4 +12,11 @@ theorem outcome_mapranges : Facts.llo_outcome_mapranges =
     ["removeChannelVotesByID", "updateChannelDefinitionsByHash", "previousOutcome.ValidAfterNanoseconds",
      "outcome.ChannelDefinitions", "outcome.ChannelDefinitions"] := rfl
 
+/-- the skip tests in front of the aggregator call, in source order: stored → (copy) → attempted, then the
+    pair is marked attempted — the body `aggregateOneMemo` models -/
+theorem aggregation_loop_shape : Facts.llo_outcome_aggregation_guards =
+    ["if outcome.StreamAggregates[sid][agg]; exists { continue }",
+     "if attempted[strm]; tried { continue }",
+     "attempted[strm] = struct{}{}"] := by decide
+
 end DSV.Props.C18.Facts
